@@ -18,7 +18,7 @@ BOUNDS = {
     'quick': 'every history of <= 3 operations from {set_up(level), set_level(level), disable, enable, decorated call returning, decorated call '
              'raising} x levels {CRITICAL, WARNING, INFO, DEBUG} x verbose in {None, 4 levels}, from the never-set-up and from the set-up state '
              '(operation codes and parameters are solver integers, enumerated exhaustively by the solver-driven fork tree); inductive step: '
-             'arbitrary console level and disabled flag, one decorated call; result independence: sift on N = 6 symbolic samples under 4 logger states',
+             'arbitrary console level and disabled flag, one decorated call; result independence: all four decorated variants (sift N=6, mask_sift N=5, ensemble_sift N=5 and complete_ensemble_sift N=5 with one member, cap 1 and a seeded noise stream, non-default imf_opts) under 5 logger states',
     'thorough': 'histories of <= 4 operations; result independence for sift and mask_sift',
 }
 OUTSIDE = 'histories longer than 4 (covered for the restore clause by the inductive step), verbose values that are not level names, log files'
@@ -38,9 +38,10 @@ def configs(tier):
     out = [('history-d%d-from-never' % d, {'kind': 'history', 'depth': d, 'init': 'never'}),
            ('history-d%d-from-setup' % (d - 1), {'kind': 'history', 'depth': d - 1, 'init': 'setup'}),
            ('inductive-step', {'kind': 'inductive'}),
-           ('results-sift-N6', {'kind': 'results', 'N': 6, 'fn': 'sift'})]
-    if tier != 'quick':
-        out.append(('results-mask_sift-N6', {'kind': 'results', 'N': 6, 'fn': 'mask_sift'}))
+           ('results-sift-N6', {'kind': 'results', 'N': 6, 'fn': 'sift'}),
+           ('results-mask_sift-N%d' % (5 if tier == 'quick' else 6), {'kind': 'results', 'N': 5 if tier == 'quick' else 6, 'fn': 'mask_sift'}),
+           ('results-ensemble_sift-N5', {'kind': 'results', 'N': 5, 'fn': 'ensemble_sift'}),
+           ('results-complete_ensemble_sift-N5', {'kind': 'results', 'N': 5, 'fn': 'complete_ensemble_sift', '_budget_s': 40})]
     return out
 
 
@@ -186,15 +187,31 @@ def results(h):
     kw = {'imf_opts': {'stop_method': 'fixed', 'max_iters': 1}}
     if h.params['fn'] == 'mask_sift':
         kw.update(mask_freqs=[0.3, 0.125], mask_amp=0.5, mask_amp_mode='abs', nphases=1, max_imfs=2)
+    if h.params['fn'].endswith('ensemble_sift'):
+        kw.update(nensembles=1, max_imfs=1)
+        h.set_option('sqrt', 'abstract')
+        h.set_option('mul', 'abstract')
+
+    def run(**extra):
+        if h.params['fn'].endswith('ensemble_sift'):
+            if h.symbolic:
+                from symnp import stubs
+                stubs.RNG.use_concrete(5)
+            else:
+                np.random.seed(5)
+        r = fn(X, **extra, **kw)
+        return np.asarray(r[0] if isinstance(r, tuple) else r)
     try:
-        ref = np.asarray(fn(X, **kw))                       # never set up, no override
-        a = np.asarray(fn(X, verbose='DEBUG', **kw))        # override before set-up
+        ref = run()                       # never set up, no override
+        a = run(verbose='DEBUG')          # override before set-up
         L.set_up(level='DEBUG')
-        b = np.asarray(fn(X, **kw))                         # verbose console
-        c = np.asarray(fn(X, verbose='CRITICAL', **kw))
+        b = run()                         # verbose console
+        c = run(verbose='CRITICAL')
         L.disable()
-        d = np.asarray(fn(X, verbose='INFO', **kw))
+        d = run(verbose='INFO')
         L.enable()
+    except IndexError:
+        return      # ensemble members with different numbers of IMFs (outside this property, see C03)
     except Exception as e:
         h.fail('no-unexpected-exception', '%s: %s' % (type(e).__name__, e))
         return
